@@ -9,7 +9,7 @@ import proto
 
 RULE = ('exhaustive: every call sequence of length <= 3 (quick) / 4 (thorough) after an execute over {fetchone, fetchmany(), fetchmany(0|1|2), '
         'fetchall, iter x1, iter xall, arraysize=2, re-execute} on results of size 0..3; seeded random sequences of length '
-        '<= 30 with several cursors per connection; every sequence of <= 4 (5 thorough) calls over {next() on a kept iterator, iter(), fetchone, fetchmany(2), fetchall, re-execute}; description indexing/slicing for every index in [-9, 9] and every slice '
+        '<= 30 with several cursors per connection; every sequence of <= 4 (5 thorough) calls over {next() on a kept iterator, iter(), fetchone, fetchmany(2), fetchall, re-execute, an execute that fails}; description indexing/slicing for every index in [-9, 9] and every slice '
         'bound pair in [-8, 8] u {None}.  After every call the return value, rowcount, rownumber and description are compared. '
         'Non-trivial = sequence contains an execute and at least one fetch; distinct = distinct protocol line.')
 ASSUMPTIONS = ['fetchmany sizes are non-negative (explicit sizes of the property)',
@@ -86,6 +86,13 @@ def run_impl(results, ops, flags=None):
                 except StopIteration:
                     got, ended = [], True
                 outs.append(show_out(got) + state(cur))
+            elif op == 'execbad':
+                # a statement the compiler rejects (a parse error for odd arguments): execute raises, the cursor is as it was
+                try:
+                    cur.execute('SELECT nosuchcolumn FROM #r0' if not arg else 'SELECT FROM WHERE')
+                    outs.append('accepted' + state(cur))
+                except (beanquery.ProgrammingError, beanquery.Error):
+                    outs.append('EXC' + state(cur))
             elif op == 'execute':
                 cur.execute(stmt_for(arg))
                 outs.append('exec' + state(cur))
@@ -153,6 +160,8 @@ def line_for(results, ops, flags=()):
         elif op == 'colslice':
             j, a, b = arg
             body.append('(colslice %d %s %s)' % (j, 'nil' if a is None else a, 'nil' if b is None else b))
+        elif op == 'execbad':
+            body.append('(execbad)')
         elif op == 'hopen':
             body.append('(hopen)')
         elif op == 'hnext':
@@ -341,14 +350,14 @@ def run(ctx):
                 if ctx.stop():
                     return
     # an iterator kept open across the other calls reads the cursor as it is when next() is called
-    hops = ['hnext', 'hopen', 'fetchone', 'fetchmany2', 'fetchall', 'execute']
+    hops = ['hnext', 'hopen', 'fetchone', 'fetchmany2', 'fetchall', 'execute', 'execbad']
     for size in (0, 1, 3, 4):
         results = mkresults([size, 2])
         for n in range(1, (5 if ctx.thorough() else 4) + 1):
             for seq in itertools.product(hops, repeat=n):
-                if 'hnext' not in seq:
+                if 'hnext' not in seq and 'execbad' not in seq:
                     continue
-                ops = [('execute', 0)] + [(o, 1 if o == 'execute' else None) for o in seq]
+                ops = [('execute', 0)] + [(o, 1 if o == 'execute' else (k % 2 if o == 'execbad' else None)) for k, o in enumerate(seq)]
                 check_script(ctx, results, ops, 'held-iterator')
             if ctx.stop():
                 return
